@@ -20,6 +20,8 @@ def run_mutant(path):
     pid = os.path.basename(os.path.dirname(path))
     name = os.path.basename(path)[:-6]
     text = open(path).read()
+    if not re.match(r"^C\d+$", pid):
+        pid = os.path.basename(os.path.dirname(os.path.dirname(path)))  # seeded/<Cnn>/<round>/patch.diff
     if path.endswith("patch.diff"):
         # a seeded change from an independent sub-agent (/verif/seeded/<Cnn>/patch.diff):
         # the check of its own property must report something
@@ -52,9 +54,9 @@ def run_mutant(path):
 
 def main():
     want = [a for a in sys.argv[1:] if re.match(r"^C\d+$", a)]
-    paths = sorted(glob.glob(os.path.join(VERIF, "selftest", "C*", "*.patch")) + glob.glob(os.path.join(VERIF, "seeded", "C*", "patch.diff")))
+    paths = sorted(glob.glob(os.path.join(VERIF, "selftest", "C*", "*.patch")) + glob.glob(os.path.join(VERIF, "seeded", "C*", "patch.diff")) + glob.glob(os.path.join(VERIF, "seeded", "C*", "*", "patch.diff")))
     if want:
-        paths = [p for p in paths if os.path.basename(os.path.dirname(p)) in want]
+        paths = [p for p in paths if any(("/" + x + "/") in p for x in want)]
     if not paths:
         print("selftest: no mutants for", want)
         return 0
